@@ -88,9 +88,10 @@ func BytesOf32(h [32]byte) []byte { return nil }
 
 // SQLParse parses a constant SQL statement text (see sqlmodel.go): op (0 unknown, 1 create,
 // 2 select, 3 insert, 4 update, 5 delete), insert conflict mode (0 plain, 1 replace, 2 ignore),
-// the columns named (1 logID, 2 chkpt, 3 range) and the WHERE clause (0 none, 1 "logID = ?",
-// 2 "logID = ? AND chkpt = ?"; plus 4 for an additional "chkpt IS NOT NULL", plus 8 for "chkpt IS NULL").
-func SQLParse(query string) (op int, conflict int, cols []int, where int) { return }
+// the columns named (1 logID, 2 chkpt, 3 range; select list / insert targets / SET targets), for
+// insert and update whether each value is a "?" placeholder (0) or the literal NULL (1), and the
+// WHERE conjunction as col*10+kind (1 "= ?", 2 IS NULL, 3 IS NOT NULL).
+func SQLParse(query string) (op int, conflict int, cols []int, lits []int, conds []int) { return }
 
 // LazySigs defers a contract's construction of a signature list until the code under analysis
 // first looks at it (so that contracts can describe rarely-read result fields without forking
